@@ -348,6 +348,9 @@ func seqCase(r *rand.Rand, comp int64, cfg []int64, kind string, n, phases int, 
 				o = append(o, fb(hi, cnt)...)
 			}
 		}
+		if fbEvery > 0 && fb != nil && cnt%fbEvery != 0 { // the periodic report also runs before the phase ends
+			o = append(o, fb(hi, cnt)...)
+		}
 
 		return o
 	})
